@@ -1,9 +1,236 @@
-/- C05 — executable model (core Lean only).  Stub. -/
+/-
+C05 — model of `VertexList.add / find_unique / find_duplicated` (lists/vertex_list.py),
+`Mesh._add_vertices` (mesh.py), `Operation.get_patches_at_corner` (operation.py) and of the part
+of `Mesh.assemble` that turns operations into vertex numbers (`Block.indexes`).
+
+Generic in the type `P` of positions (with the test `close p q`, python: `norm(p - q) < TOL`)
+and in the type `N` of patch names (python: `str`, sorted with `list.sort`).  The line protocol
+instantiates `P := V3` (exact rationals of the float64 coordinates, `close` = squared distance
+below `TOL²`) and `N := String`.  Core Lean only.
+-/
 import CBV.Model.Common
 import CBV.Gen.Tables
 
 namespace CBV.C05
 
-def handle (_op : String) (_args : List String) : Option String := none
+/-! ### `sorted(patches)` -/
+
+section SortSec
+variable {N : Type} [LE N] [DecidableLE N]
+
+/-- insertion into a sorted list (stable: goes before the first element that is not smaller) -/
+def orderedInsert (a : N) : List N → List N
+  | [] => [a]
+  | b :: l => if a ≤ b then a :: b :: l else b :: orderedInsert a l
+
+/-- `sorted(l)` / `l.sort()`: a stable sort, duplicates are kept -/
+def sort (l : List N) : List N := l.foldr orderedInsert []
+
+end SortSec
+
+/-! ### `VertexList` -/
+
+/-- `Vertex`: the index it was created with and its position. -/
+structure Vertex (P : Type) where
+  index : Nat
+  pos : P
+  deriving Repr, DecidableEq
+
+/-- `DuplicatedEntry`: a vertex and the sorted slave patch names it was created for. -/
+structure Dup (P N : Type) where
+  vertex : Vertex P
+  patches : List N
+  deriving Repr, DecidableEq
+
+/-- `VertexList`: `vertices` in output order and the registry `duplicated`. -/
+structure VList (P N : Type) where
+  vertices : List (Vertex P) := []
+  duplicated : List (Dup P N) := []
+  deriving Repr
+
+section VL
+variable {P N : Type} [DecidableEq N] [LE N] [DecidableLE N] (close : P → P → Bool)
+
+/-- `VertexList.find_duplicated`; the caller passes the already sorted list. -/
+def findDuplicated (vl : VList P N) (p : P) (sp : List N) : Option (Vertex P) :=
+  (vl.duplicated.find? (fun d => close p d.vertex.pos && decide (d.patches = sp))).map (·.vertex)
+
+/-- `VertexList.find_unique` -/
+def findUnique (vl : VList P N) (p : P) : Option (Vertex P) :=
+  vl.vertices.find? (fun v => close v.pos p)
+
+/-- `Vertex.from_point(point, len(self.vertices))` appended to `vertices` -/
+def newVertex (vl : VList P N) (p : P) : Vertex P := ⟨vl.vertices.length, p⟩
+
+/-- `VertexList.add(point, slave_patches)`; returns the new list and the vertex handed back. -/
+def add (vl : VList P N) (p : P) (slaves : Option (List N)) : VList P N × Vertex P :=
+  match slaves with
+  | none =>
+      -- scenarios 1, 2 and 4
+      let fresh := ({ vl with vertices := vl.vertices ++ [newVertex vl p] }, newVertex vl p)
+      match findUnique close vl p with
+      | some v => if vl.duplicated.any (fun d => d.vertex.index == v.index) then fresh else (vl, v)
+      | none => fresh
+  | some s =>
+      -- scenario 3 (the only branch `Mesh` takes)
+      let sp := sort s
+      match findDuplicated close vl p sp with
+      | some v => (vl, v)
+      | none =>
+          let v := newVertex vl p
+          ({ vertices := vl.vertices ++ [v], duplicated := vl.duplicated ++ [⟨v, sp⟩] }, v)
+
+/-- A sequence of `add(point, list)` calls (the way `Mesh` uses the list); the vertices handed back. -/
+def runAdds : VList P N → List (P × List N) → VList P N × List (Vertex P)
+  | vl, [] => (vl, [])
+  | vl, (p, s) :: rest =>
+      let r := add close vl p (some s)
+      let r' := runAdds r.1 rest
+      (r'.1, r.2 :: r'.2)
+
+/-- A sequence of arbitrary `add` calls (`None` included). -/
+def runAddsOpt : VList P N → List (P × Option (List N)) → VList P N × List (Vertex P)
+  | vl, [] => (vl, [])
+  | vl, (p, s) :: rest =>
+      let r := add close vl p s
+      let r' := runAddsOpt r.1 rest
+      (r'.1, r.2 :: r'.2)
+
+end VL
+
+/-! ### operations and `Mesh._add_vertices` -/
+
+/-- The part of an `Operation` that matters for vertex creation: 8 points (bottom face 0..3, top
+    face 4..7) and the patch names of bottom, top and the four sides in `SIDES_MAP` order. -/
+structure Op (P N : Type) where
+  pts : List P
+  bottom : Option N := none
+  top : Option N := none
+  sides : List (Option N) := [none, none, none, none]
+  deriving Repr
+
+section Asm
+variable {P N : Type} [DecidableEq N] [LE N] [DecidableLE N] (close : P → P → Bool)
+
+/-- a duplicate-free list with the same members -/
+def dedupe : List N → List N
+  | [] => []
+  | a :: l => if a ∈ l then dedupe l else a :: dedupe l
+
+/-- python `set` built by three `add`s and `discard(None)`, as a duplicate-free list (the order in
+    which python iterates over the set does not matter: the list is sorted before use) -/
+def setOf (xs : List (Option N)) : List N := dedupe (xs.filterMap id)
+
+/-- `Operation.get_patches_at_corner(corner)` -/
+def patchesAtCorner (op : Op P N) (corner : Nat) : List N :=
+  let face := if corner < 4 then op.bottom else op.top
+  let index := corner % 4
+  setOf [face, op.sides.getD index none, op.sides.getD ((index + 3) % 4) none]
+
+/-- `patches.intersection(self.patch_list.slave_patches)` -/
+def slaveSet (slaves : List N) (op : Op P N) (corner : Nat) : List N :=
+  (patchesAtCorner op corner).filter (fun n => decide (n ∈ slaves))
+
+/-- the `add` calls `Mesh._add_vertices(operation)` makes, corner 0 first -/
+def cornerCalls (slaves : List N) (op : Op P N) : List (P × List N) :=
+  op.pts.zipIdx.map (fun (p, c) => (p, slaveSet slaves op c))
+
+/-- `Mesh._add_vertices` -/
+def addVertices (slaves : List N) (vl : VList P N) (op : Op P N) : VList P N × List (Vertex P) :=
+  runAdds close vl (cornerCalls slaves op)
+
+/-- The vertex part of `Mesh.assemble`: operations in depot order; result: the vertex list and
+    `Block.vertices` of every block. -/
+def assemble (slaves : List N) : VList P N → List (Op P N) → VList P N × List (List (Vertex P))
+  | vl, [] => (vl, [])
+  | vl, op :: rest =>
+      let r := addVertices close slaves vl op
+      let r' := assemble slaves r.1 rest
+      (r'.1, r.2 :: r'.2)
+
+/-- `PatchList.slave_patches` -/
+def slavePatches (merged : List (N × N)) : List N := merged.map (·.2)
+
+end Asm
+
+/-! ### instance used by the line protocol -/
+
+/-- `constants.TOL` (the float64 value, exactly, re-read from the source on every run) -/
+def tol : Rat := (CBV.Gen.c05TolNum : Rat) / (CBV.Gen.c05TolDen : Rat)
+
+def tol2 : Rat := tol * tol
+
+/-- `f.norm(p - q) < TOL` on exact coordinates -/
+def closeV3 (p q : V3) : Bool := decide (V3.norm2 (p - q) < tol2)
+
+/-! ### line protocol -/
+
+def parseName? (s : String) : Option (Option String) :=
+  if s = "-" then some none else if s.isEmpty then none else some (some s)
+
+def parseNames? (s : String) : Option (List String) :=
+  if s.isEmpty then some [] else some (s.splitOn ",")
+
+/-- `p0;…;p7|bottom|top|s0,s1,s2,s3` with `-` for no patch -/
+def parseOp? (s : String) : Option (Op V3 String) :=
+  match s.splitOn "|" with
+  | [pts, b, t, sd] => do
+      let pts ← (pts.splitOn ";").mapM parseV3?
+      if pts.length ≠ 8 then none
+      let b ← parseName? b
+      let t ← parseName? t
+      let sd ← (sd.splitOn ",").mapM parseName?
+      if sd.length ≠ 4 then none
+      some { pts := pts, bottom := b, top := t, sides := sd }
+  | _ => none
+
+def showIdx (vs : List (Vertex V3)) : String := showNatList (vs.map (·.index))
+
+def showVL (vl : VList V3 String) : String :=
+  let ix := "+".intercalate (vl.vertices.map (fun v => toString v.index))
+  let ds := ";".intercalate (vl.duplicated.map (fun d => s!"{d.vertex.index}:" ++ ",".intercalate d.patches))
+  s!"n={vl.vertices.length} I={ix} D={ds}"
+
+/-- `c05.asm <slave names, comma separated or ->  <op> …` → block indexes and the registry -/
+def handleAsm (args : List String) : Option String :=
+  match args with
+  | sl :: ops => do
+      let slaves ← if sl = "-" then some [] else parseNames? sl
+      let ops ← ops.mapM parseOp?
+      let r := assemble closeV3 slaves {} ops
+      some (s!"B={";".intercalate (r.2.map showIdx)} " ++ showVL r.1)
+  | _ => none
+
+/-- `point|names` (a list, possibly empty) or `point|!` (python `None`) -/
+def parseCall? (s : String) : Option (V3 × Option (List String)) :=
+  match s.splitOn "|" with
+  | [p, n] => do
+      let p ← parseV3? p
+      if n = "!" then some (p, none) else do
+        let ns ← parseNames? n
+        some (p, some ns)
+  | _ => none
+
+/-- `c05.adds <call> …` → the indices handed back and the registry -/
+def handleAdds (args : List String) : Option String := do
+  let calls ← args.mapM parseCall?
+  let r := runAddsOpt closeV3 {} calls
+  some (s!"R={showIdx r.2} " ++ showVL r.1)
+
+/-- `c05.corner <op> <corner>` → patch names at the corner, sorted -/
+def handleCorner (args : List String) : Option String :=
+  match args with
+  | [op, c] => do
+      let op ← parseOp? op
+      let c ← c.toNat?
+      if c < 8 then some (showStrList (sort (patchesAtCorner op c))) else none
+  | _ => none
+
+def handle (op : String) (args : List String) : Option String :=
+  match op with
+  | "c05.asm" => handleAsm args
+  | "c05.adds" => handleAdds args
+  | "c05.corner" => handleCorner args
+  | _ => none
 
 end CBV.C05
